@@ -8,7 +8,7 @@ cp -r /repo/. "$D"/
 ( cd "$D" && (git apply "$P" 2>/dev/null || patch -p1 -s < "$P") ) || { echo "patch failed"; rm -rf "$D"; exit 3; }
 ( cd "$D" && /venv/bin/python -m pytest -q -x -p no:cacheprovider --deselect tests/test_schema.py::TestSchema::test_setattr_field 2>&1 | tail -1 )
 for c in "$@"; do
-  VERIF_REPO="$D" /verif/check "$c" > "$D/.out" 2>&1; rc=$?
+  VERIF_EVIDENCE_DIR="$D/.evidence" VERIF_REPO="$D" /verif/check "$c" > "$D/.out" 2>&1; rc=$?
   tail -3 "$D/.out"
   echo "  -> $c exit=$rc"
 done
